@@ -452,7 +452,7 @@ var c13LongSteps = []string{
 	"findall(X-Y, (between(1, 3000, X), between(1, 100, Y)), L), keysort(L, S).", "numlist_like(1, 300000, L), atom_codes_like(L).",
 	// steps that no poll interrupts (one unification, one copy, one sort of a long list): seconds, far below the bound,
 	// but long enough for a cancellation to land inside them
-	"length(L, 400000), length(M, 400000), L = M.", "length(L, 400000), copy_term(L, M).", "length(L, 400000), term_variables(L, Vs).", "length(L, 400000), length(M, 400000), L == M.",
+	"length(L, 250000), length(M, 250000), L = M.", "length(L, 250000), copy_term(L, M).", "length(L, 250000), term_variables(L, Vs).", "length(L, 250000), length(M, 250000), L == M.",
 	"length(L, 100000), acyclic_term(L).",
 	// a term that shares its subterms 25 levels deep (2^25 leaves as a tree, 25 cells as a graph) given to a control
 	// construct: thorough tier only, an open known finding (call/N expands the graph as a tree, in one step)
